@@ -890,8 +890,8 @@ def _check_shapes(prog: Program, res: Result):
     st = State()
     for p in fi.params():
         st.env[p] = Rat.atom(p)
-    for stmt in fi.node.body:
-        if isinstance(stmt, ast.Assign) and isinstance(stmt.targets[0], ast.Name) and isinstance(stmt.value, ast.BinOp):
+    for stmt in sorted((x for x in ast.walk(fi.node) if isinstance(x, ast.Assign)), key=lambda x: (x.lineno, x.col_offset)):  # the spacing definitions, at whatever nesting depth
+        if isinstance(stmt.targets[0], ast.Name) and isinstance(stmt.value, ast.BinOp):
             st.env[stmt.targets[0].id] = eng.eval(stmt.value, st)
     ext = [c for c in ast.walk(fi.node) if isinstance(c, ast.Call) and isinstance(c.func, ast.Attribute) and c.func.attr == "extend" and c.args and isinstance(c.args[0], ast.Call)]
     parts = {attr_chain(c.args[0].func): c.args[0] for c in ext}
@@ -913,7 +913,7 @@ def _check_shapes(prog: Program, res: Result):
     if not ok:
         res.violation("R03.5", "zoned-rectangle", prog.loc(fi, fi.node), q,
                       "zoned_rectangle() no longer combines open_rectangle(n_x, n_y, b_x, b_y) with rectangle(n_ix, n_it, bix, biy, origin=(bix, biy)), bix = (n_x-1) b_x / (n_ix+1): interior boreholes can coincide with the perimeter or leave the land")
-    guards = [n for n in fi.node.body if isinstance(n, ast.If) and any(isinstance(b, ast.Raise) for b in n.body)]
+    guards = [n for n in ast.walk(fi.node) if isinstance(n, ast.If) and any(isinstance(b, ast.Raise) for b in n.body)]  # wherever they sit: flat, or nested in each other's else
     gt = sorted(ast.unparse(g.test).replace(" ", "").replace("(", "").replace(")", "") for g in guards)
     from ..paths import cmp_is
 
